@@ -40,7 +40,7 @@ CHECK_DEADLOCK FALSE
         spec_acc.add(())     # the empty sequence of items (the initial state) is deterministic
     outp = os.path.join(workdir("C13"), "enum-" + name + ".ndjson")
     vh_to_file(["cbordet-enum", json.dumps(space)], outp, timeout=timeout)
-    real_acc, timeouts, counts = set(), [], None
+    real_acc, timeouts, counts, unstable = set(), [], None, []
     with open(outp) as f:
         for line in f:
             d = json.loads(line)
@@ -48,6 +48,8 @@ CHECK_DEADLOCK FALSE
                 real_acc.add(tuple(d["acc"]))
             elif "timeout" in d:
                 timeouts.append(d["timeout"])
+            elif "unstable" in d:
+                unstable.append(d["unstable"])
             elif "counts" in d:
                 counts = d
     if counts is None:
@@ -63,10 +65,13 @@ CHECK_DEADLOCK FALSE
         rep.violation("accepts:" + hexs(s), "cbor.Deterministic accepts %s, which is not a sequence of complete core-deterministic items" % hexs(s),
                       {"component": "cbordet", "in": list(s), "spec": False, "real": "nil"})
     for s in sorted(spec_acc - real_acc)[:2000]:
-        if list(s) in timeouts:
+        if list(s) in timeouts or list(s) in unstable:
             continue
         rep.violation("rejects:" + hexs(s), "cbor.Deterministic rejects %s, which is core-deterministic" % hexs(s),
                       {"component": "cbordet", "in": list(s), "spec": True, "real": "not nil"})
+    for s in unstable:
+        rep.violation("unstable:" + hexs(s), "cbor.Deterministic gives different verdicts for %s depending on the bytes that lie behind the slice in memory" % hexs(s),
+                      {"component": "cbordet", "in": list(s), "real": "unstable"})
     for s in timeouts:
         rep.violation("hangs:" + hexs(s), "cbor.Deterministic does not terminate on %s" % hexs(s),
                       {"component": "cbordet", "in": list(s), "real": "timeout"})
@@ -92,7 +97,9 @@ def _det_traces(rep, n, shards):
     for rj in rejects:
         c = byid[rj["case"]]
         h = hexs(c["in"])
-        if c["verdict"] == "timeout":
+        if c["verdict"] == "unstable":
+            rep.violation("unstable:" + h, "cbor.Deterministic gives different verdicts for %s depending on the bytes that lie behind the slice in memory" % h, {"component": "cbordet", "in": c["in"], "real": "unstable"})
+        elif c["verdict"] == "timeout":
             rep.violation("hangs:" + h, "cbor.Deterministic does not terminate on %s" % h, {"component": "cbordet", "in": c["in"], "real": "timeout"})
         elif c["verdict"] == "nil":
             rep.violation("accepts:" + h, "cbor.Deterministic accepts %s (generated by mutation '%s'), not core-deterministic" % (h, c["mut"]),
